@@ -82,8 +82,12 @@ class TagRegistry:
         category = self.category_map.get(category_name, None)
         if category:
             return category
-        category_name = CategoryName(category_name.lower())
-        return self.category_map.get(category_name, None)
+        # Category names are case-insensitive
+        lowercase_name = category_name.lower()
+        for registered_name, category in self.category_map.items():
+            if registered_name.lower() == lowercase_name:
+                return category
+        return None
 
     def get_tag_factory(self, tag_name: QualifiedTagName) -> TagFactory:
         if tag_name.category is None:
